@@ -1,6 +1,7 @@
 package checks
 
 import (
+	"strings"
 	"math/rand"
 	"time"
 
@@ -49,6 +50,17 @@ func buildC12(tier string, seed int64) *Family {
 		"*[a]", "a[@a]", "*[. = '1']", "*[not(a)]", "*[1]", "*[last()]", "a[2]", "*[position() > 1]", "*/*[1]", "*[1][a]", "*[count(a) = 1]", "*[a]/@a"}
 	for _, f := range flat {
 		insts = append(insts, seqInst(f, cfg, true))
+	}
+	// the same flat forms over prefixed names (documents whose nodes carry a symbolic prefix)
+	for _, f := range []string{"p:a", "//p:a", "*/p:a", "descendant::p:a", "p:a/a", "//p:a/@a", "p:a/p:a", ".//p:a", "@p:a", "descendant-or-self::p:a"} {
+		pc := docCfg{N: cfg.N, A: 0, Names: "a,b", Pool: ","}
+		if strings.Contains(f, "@") {
+			pc = docCfg{N: cfg.N - 1, A: 1, Names: "a,b", Pool: ","}
+		}
+		in := seqInst(f, pc, true)
+		in.Params["prefixes"] = ",p"
+		in.ID += " prefixed"
+		insts = append(insts, in)
 	}
 	// (b) node-set expressions in general
 	gen := []string{"//a[@a]", "//*[a]", "//*[count(a) = 1]", "..", "../*", "ancestor::*", "ancestor-or-self::node()", "preceding::*", "preceding-sibling::*", "following::*", "following-sibling::*",
